@@ -925,6 +925,7 @@ func main() {
 		h.concurrent(r3, ss, 2500)
 		h.editSessions(cv.NewRand(4), 40)
 	}
+	h.refereeStreams()
 	h.finalChecks()
 	if err := h.w.Flush(); err != nil {
 		panic(err)
